@@ -302,6 +302,51 @@ def point_generation_cases():
         yield {'name': f"generated_points_on_model_curve|{name}", 'ok': not probs, 'detail': '; '.join(probs[:2])}
 
 
+def long_array_cases():
+    """arrays of realistic length (65, 100, 130 points -- not only the two or three elements of the symbolic obligations): the
+    inverse of the forward equation element by element, and the array evaluation equal to evaluating one element at a time"""
+    import warnings
+    from pgv.checks.models_common import DOMAIN
+    from pygaps.utilities.exceptions import CalculationError
+    for name in sorted(DOMAIN):
+        m = _model(name, None, {})
+        if name in ('DR', 'DA'):
+            m.params['e'] = 6000.0  # J/mol: a characteristic energy of the order of RT ln(1/p), so that the loading does not underflow
+        probs = []
+        with warnings.catch_warnings():
+            warnings.simplefilter('ignore')
+            for n in (65, 100, 130):
+                try:
+                    if m.calculates == 'loading':
+                        xs = numpy.linspace(0.05, 0.6, n)
+                        fwd, inv = m.loading, m.pressure
+                    else:
+                        xs = numpy.linspace(0.05, 0.6, n)
+                        fwd, inv = m.pressure, m.loading
+                    ys = numpy.asarray(fwd(xs), dtype=float)
+                    one = numpy.asarray([numpy.asarray(fwd(float(x)), dtype=float).ravel()[0] for x in xs])
+                    if ys.shape != one.shape or not numpy.allclose(ys, one, rtol=1e-9):
+                        probs.append(f"n={n}: forward(array) differs from element-wise evaluation at {int(numpy.argmax(~numpy.isclose(ys, one, rtol=1e-9)))}")
+                        continue
+                    back = numpy.asarray(inv(ys), dtype=float).ravel()
+                    if back.shape != xs.shape or not numpy.allclose(back, xs, rtol=1e-5, atol=1e-9):
+                        k = int(numpy.argmax(~numpy.isclose(back, xs, rtol=1e-5, atol=1e-9))) if back.shape == xs.shape else -1
+                        probs.append(f"n={n}: inverse(forward(x)) != x, first at index {k}: {back[k] if k >= 0 else back.shape} vs {xs[k] if k >= 0 else xs.shape}")
+                except (CalculationError, NotImplementedError):
+                    continue
+                except (ValueError, TypeError):
+                    continue  # scalar-only evaluation (Virial, quad-based): no array claim
+        yield {'name': f"long_arrays|{name}", 'ok': not probs, 'detail': '; '.join(probs[:2])}
+
+
+@replayer('c10.long')
+def _long(spec, model):
+    for r in long_array_cases():
+        if r['name'] == spec['name']:
+            return {'confirmed': not r['ok'], 'observed': r['detail'], 'expected': 'inverse(forward(x)) == x for every element of a long array'}
+    return {'confirmed': False, 'error': 'case not found'}
+
+
 @replayer('c10.points')
 def _points(spec, model):
     for r in point_generation_cases():
